@@ -77,15 +77,13 @@ def DepthOK (L : Limits) (d : Nat) : Prop := d = 0 ∨ d < L.maxDepth
     `d + 1` is below the depth limit -/
 theorem childNodes_meta (L : Limits) (pvid : Nat) (o : PyObj) (d : Nat) (cs : List Node)
     (h : childNodes L pvid o d = .ok cs) : ∀ c ∈ cs, c.depth = d + 1 ∧ c.parent = some pvid ∧ d + 1 < L.maxDepth := by
-  unfold childNodes at h
-  split at h
-  · simp only [Except.ok.injEq] at h; subst h; simp
-  · split at h
-    · simp only [Except.ok.injEq] at h; subst h; simp
-    · rename_i _ hd
-      have hlt : d + 1 < L.maxDepth := by
-        have h1 : ¬ (L.maxDepth ≤ d + 1) := fun hle => hd ((depthStop_iff d L.maxDepth).mpr hle)
-        omega
+  rcases childNodes_ok_cases h with rfl | ⟨hd, h⟩
+  · simp
+  · have hlt : d + 1 < L.maxDepth := by
+      have h1 : ¬ (L.maxDepth ≤ d + 1) := fun hle => by
+        rw [(depthStop_iff d L.maxDepth).mpr hle] at hd; simp at hd
+      omega
+    have hfin : ∀ c ∈ cs, c.depth = d + 1 ∧ c.parent = some pvid := by
       have key : ∀ (bs : List Branch) (cs : List Node), branchChildren L pvid (d + 1) o bs = .ok cs →
           ∀ c ∈ cs, c.depth = d + 1 ∧ c.parent = some pvid := by
         intro bs
@@ -149,9 +147,9 @@ theorem childNodes_meta (L : Limits) (pvid : Nat) (o : PyObj) (d : Nat) (cs : Li
                 | ok xs => simp only [hs, probeList, Except.ok.injEq] at h; subst h; exact hdict _ _
                 | raises m => simp [hs, probeList] at h
               | false => simp only [he] at h; exact ih cs h
-      intro c hc
-      have := key childBranches cs h c hc
-      exact ⟨this.1, this.2, hlt⟩
+      exact key childBranches cs h
+    intro c hc
+    exact ⟨(hfin c hc).1, (hfin c hc).2, hlt⟩
 
 /-- invariant of a search started from cache `c0` -/
 structure RInv (L : Limits) (c0 : Cache) (s : BState) : Prop where
